@@ -1553,3 +1553,68 @@ for _n, _f in (("l1_loss", staticmethod(_f_l1_loss)), ("mse_loss", staticmethod(
                ("avg_pool1d", _f_avg_pool(1)), ("avg_pool2d", _f_avg_pool(2)), ("avg_pool3d", _f_avg_pool(3))):
     if _n not in vars(_Functional):
         setattr(_Functional, _n, _f)
+
+
+# ---- torch.nn.init (spatial/linear.py, parametric.py: reset_parameters) -- appended for the C07 unit ----
+class _Init:
+    @staticmethod
+    def constant_(t, val):
+        return t.fill_(val)
+
+
+if not hasattr(_NN, "init"):
+    _NN.init = _Init()
+
+
+# ---- torch.inverse for batched and 4 x 4 operands (HomogeneousTransform / Shearing .tensor) -- appended for the
+# C07 unit; unbatched 2 x 2 / 3 x 3 operands keep going through the original adjugate code above ----
+_inverse_small = inverse
+
+
+def _minor(a, i, j):
+    n = a.shape[0]
+    rows = [r for r in range(n) if r != i]
+    cols = [c for c in range(n) if c != j]
+    return a[np.ix_(rows, cols)]
+
+
+def _det_any(a):
+    n = a.shape[0]
+    if n == 1:
+        return a[0, 0]
+    if n <= 3:
+        return _det2d(a)
+    acc = None
+    for j in range(n):
+        if a[0, j].is_const() and a[0, j].value() == 0:
+            continue
+        term = a[0, j] * _det_any(_minor(a, 0, j))
+        if j % 2:
+            term = -term
+        acc = term if acc is None else acc + term
+    return acc if acc is not None else E.const(0)
+
+
+def _inverse_any(x):
+    a = x.a
+    _check_init(a)
+    if a.ndim == 2 and a.shape[0] in (2, 3):
+        return _inverse_small(x)
+    if a.ndim > 2:
+        out = np.empty(a.shape, dtype=object)
+        for idx in np.ndindex(a.shape[:-2]):
+            out[idx] = _inverse_any(Tensor(a[idx])).a
+        return x._new(out)
+    n = a.shape[0]
+    if a.shape != (n, n) or n > 4:
+        raise TraceError(f"inverse of shape {a.shape}")
+    d = _det_any(a)
+    out = np.empty((n, n), dtype=object)
+    for i in range(n):
+        for j in range(n):
+            cof = _det_any(_minor(a, j, i))
+            out[i, j] = (cof if (i + j) % 2 == 0 else -cof) / d
+    return x._new(out)
+
+
+inverse = _inverse_any
